@@ -158,12 +158,12 @@ class Inst:
         os.chmod(self.dir, 0o777)
         if kind == "acl":
             self.sq = L.squid(extra_conf="external_acl_type vext ttl=0 negative_ttl=0 children-max=1 children-startup=0 "
-                                         "children-idle=1 concurrency=%d %%URI %s %s\nacl e external vext\n" % (LIMIT, exe, self.dir),
+                                         "children-idle=1 concurrency=%d %%URI %s %s conc\nacl e external vext\n" % (LIMIT, exe, self.dir),
                               access="http_access allow e\nhttp_access deny all", name="c47%s%dp%d" % (kind, idx, os.getpid()))
         else:
             conc = LIMIT if kind == "rw" else 0
-            self.sq = L.squid(extra_conf="url_rewrite_program %s %s\nurl_rewrite_children 1 startup=0 idle=1 concurrency=%d\n"
-                                         % (exe, self.dir, conc), name="c47%s%dp%d" % (kind, idx, os.getpid()))
+            self.sq = L.squid(extra_conf="url_rewrite_program %s %s %s\nurl_rewrite_children 1 startup=0 idle=1 concurrency=%d\n"
+                                         % (exe, self.dir, "conc" if conc else "plain", conc), name="c47%s%dp%d" % (kind, idx, os.getpid()))
         self.lock = threading.Lock()
 
     def nstarted(self):
